@@ -100,9 +100,14 @@ def jobs(tier):
     for (n, hard, soft, w, prior) in [(2, [], [(1, 0)], 1, ([(1, 0)], [])), (2, [(1, 0)], [], 1, ([], []))]:
         c = Config(n, hard, soft, w, prior=prior)
         out.append((sched.cfg_name(c), _job, dict(n=n, hard=hard, soft=soft, w=w, tier=tier, prior=prior)))
+    # graphs with a nested (possibly empty) dependency graph as a node: the hard graph handed to the back end is the hard relation (symrun)
+    out.append(('handed-graphs', sched._job_handed_graphs, dict(timeout_ms=20000)))
     return out
 
 
 def replay(rp):
     import sys
+    if rp['job'] == 'handed-graphs':
+        from engine.runner import replay_sym
+        return replay_sym(sched.handed_graphs_harness, rp['inputs'])
     return sched.generic_replay(sys.modules[__name__], rp)
